@@ -30,6 +30,96 @@ def timer_runner(model):
     raise AnalysisError('timer thread function not found')
 
 
+def confine_tracking(run, model):
+    """shared with C12: stop() finds the sources to cancel in the same tracking deque"""
+    # CONFINE: the unsynchronised scan is only safe while no other thread of the package touches the tracking deque
+    from sa.context import effects
+    from sa import threads
+    cg = callgraph(model)
+    fx = effects(model)
+    run.rule('CONFINE.tracking', 'no thread root of the package other than the object\'s own thread mutates the tracking deque')
+    n_roots = 0
+    for sf_, root, c_ in threads.spawn_roots(model, cg):
+        if root.name == 'run_event':
+            continue
+        n_roots += 1
+        bad = sorted({'%s: %s' % (f_.qualname, how) for f_, path, how, node in threads.root_writes(model, cg, fx, root) if path.split('.')[0] == 'posted_events_queue'})
+        run.inst('CONFINE.tracking', root, 'thread root %s does not touch the tracking deque' % root.name, not bad,
+                 '' if not bad else ('the thread started in %s can reach %s: cancel_event/cancel_events scan the tracking deque with an unlocked inspect-[-1]-then-pop/rotate loop '
+                                     'that is only correct while nobody else rotates or pops it; a concurrent rotation makes the scan skip the source being cancelled, which then '
+                                     'keeps posting' % (sf_.qualname, bad)), obligation=True)
+    run.floor('thread roots checked for confinement of the tracking deque', n_roots, 4)
+
+
+def unique_source_id(run, model):
+    """the id recorded for a timed source (and returned to the caller) is a fresh value: cancel_event(id) stops the *first* record whose id is equal,
+    so two live sources with equal ids make it stop the wrong one and leave the intended one running"""
+    from sa.util import namedtuple_fields, ctor_fields
+    run.rule('UNIQUE.source-id', 'the id recorded for a timed source comes from a source of fresh values (uuid4/uuid1/next(counter)), not from data that can repeat')
+    ao = model.cls('ActiveObject')
+    pe = next((m_ for n_, m_ in ao.methods.items() if n_.endswith('__post_event')), None)
+    if pe is None:
+        raise AnalysisError('ActiveObject.__post_event not found')
+    run.touch(pe)
+    tracked = [c for c in shallow_calls(pe.node) if isinstance(c.func, (ast.Attribute, ast.Name)) and norm(c.func).split('.')[-1] == 'PostedEvent']
+    pfields = namedtuple_fields(model, 'PostedEvent') or []
+    if not tracked or 'uuid' not in pfields:
+        raise AnalysisError('tracking record construction (PostedEvent with a uuid field) not found in __post_event')
+    n = 0
+    for tc in tracked:
+        idarg = ctor_fields(tc, pfields).get('uuid')
+        if idarg is None:
+            raise AnalysisError('the uuid field of the tracking record is not given at %s' % norm(tc))
+        # the definitions of the id expression inside __post_event: local definitions, or assignments to the same attribute path
+        defs = []
+        if isinstance(idarg, ast.Name):
+            defs = [v for v in (local_defs_of(pe, idarg.id)) if v is not None]
+        elif dotted(idarg) is not None:
+            for a in walk_shallow(pe.node):
+                if isinstance(a, ast.Assign) and any(dotted(t) == dotted(idarg) for t in a.targets):
+                    defs.append(a.value)
+        else:
+            defs = [idarg]
+        if not defs:
+            raise AnalysisError('no definition of the timed-source id %s found in __post_event' % norm(idarg))
+        for v in defs:
+            n += 1
+            v2 = expand_locals(v, pe.node, params=pe.params)
+            fresh = [c for c in ast.walk(v2) if isinstance(c, ast.Call) and is_fresh_source(c, model, pe)]
+            cut = [sb for sb in ast.walk(v2) if isinstance(sb, ast.Subscript) and any(any(x is c for x in ast.walk(sb.value)) for c in fresh)]
+            ok = bool(fresh) and not cut
+            run.inst('UNIQUE.source-id', pe, 'id of a timed source: %s' % norm(v), ok,
+                     '' if ok else ('the id of a timed source is %s, which %s: two sources alive at the same time can get equal ids (for example after an older one was cancelled, '
+                                    'or for equal names), and cancel_event(id) then stops the first match - the wrong source - while the intended one keeps posting'
+                                    % (norm(v), 'truncates the fresh value' if cut else 'contains no fresh value (uuid4/uuid1/next(counter))')), node=v, obligation=True)
+    run.floor('definitions of the timed-source id', n, 1)
+
+
+def local_defs_of(f, name):
+    out = []
+    for a in walk_shallow(f.node):
+        if isinstance(a, ast.Assign):
+            for t in a.targets:
+                if isinstance(t, ast.Name) and t.id == name:
+                    out.append(a.value)
+    return out
+
+
+def is_fresh_source(c, model, f):
+    fn = norm(c.func)
+    if fn in ('uuid.uuid4', 'uuid.uuid1', 'uuid4', 'uuid1', 'secrets.token_hex', 'secrets.token_urlsafe', 'secrets.token_bytes'):
+        return True
+    if fn == 'next' and c.args:
+        # next(<counter>) where the counter is bound to itertools.count(...) somewhere in the package
+        tgt = norm(c.args[0]).split('.')[-1]
+        for m_ in model.modules.values() if isinstance(model.modules, dict) else model.modules:
+            for a in ast.walk(m_.tree):
+                if isinstance(a, ast.Assign) and isinstance(a.value, ast.Call) and norm(a.value.func) in ('itertools.count', 'count') and \
+                        any(norm(t).split('.')[-1] == tgt for t in a.targets):
+                    return True
+    return False
+
+
 def check(run, model, tier):
     run.explanation = ('Operator census (identity vs equality) and loop-shape/path-count analysis of ActiveObject.cancel_event/cancel_events, '
                        'plus a lockset look at the timer thread\'s test-then-post. Matching by equality and inspecting each tracked record '
@@ -123,23 +213,8 @@ def check(run, model, tier):
             mcnt = queues.count(g, [n for n, c in clears], start=[m for m, l2 in g.succ[mt] if l2 == M_TRUE][0])
         ok = mcnt is not None and mcnt[0] >= 1
         run.inst('SCAN.clear-matched', f, 'a matched source is always stopped', ok, 'a matched record can be dropped without clearing its run flag', obligation=True)
-    # ---- CONFINE: the unsynchronised scan is only safe while no other thread of the package touches the tracking deque
-    from sa.context import effects
-    from sa import threads
-    cg = callgraph(model)
-    fx = effects(model)
-    run.rule('CONFINE.tracking', 'no thread root of the package other than the object\'s own thread mutates the tracking deque')
-    n_roots = 0
-    for sf_, root, c_ in threads.spawn_roots(model, cg):
-        if root.name == 'run_event':
-            continue
-        n_roots += 1
-        bad = sorted({'%s: %s' % (f_.qualname, how) for f_, path, how, node in threads.root_writes(model, cg, fx, root) if path.split('.')[0] == 'posted_events_queue'})
-        run.inst('CONFINE.tracking', root, 'thread root %s does not touch the tracking deque' % root.name, not bad,
-                 '' if not bad else ('the thread started in %s can reach %s: cancel_event/cancel_events scan the tracking deque with an unlocked inspect-[-1]-then-pop/rotate loop '
-                                     'that is only correct while nobody else rotates or pops it; a concurrent rotation makes the scan skip the source being cancelled, which then '
-                                     'keeps posting' % (sf_.qualname, bad)), obligation=True)
-    run.floor('thread roots checked for confinement of the tracking deque', n_roots, 4)
+    confine_tracking(run, model)
+    unique_source_id(run, model)
     # ---- timer: test-then-post atomicity
     t, sf, sc = timer_runner(model)
     g = cfg_of(t)
